@@ -631,8 +631,15 @@ def c11(rec):
     cache = {}
     b = fbuild.Builder()
     b.leaf_cache = cache
+    def has_sub(t):
+        if isinstance(t, dict):
+            return t.get("c") == "Sub" or any(has_sub(v) for v in t.values())
+        if isinstance(t, list):
+            return any(has_sub(v) for v in t)
+        return False
     try:
-        with lazy:
+        # index substitutions of a leaf stay on the tape only if they are built as terms
+        with (reflect if has_sub(rec["t"]) else lazy):
             x = b.build(rec["t"])
     except Exception as e:  # noqa
         return [_verdict("C11", "declined_error", "build:" + type(e).__name__)]
@@ -646,7 +653,10 @@ def c11(rec):
         with AdjointTape() as tape:
             fwd = apply_optimizer(x)
         return fwd, tape.adjoint(plus, times, fwd)
-    for vname, fn in (("plain", plain), ("optimized", optimized)):
+    # The optimizer's unfold pass evaluates index substitutions of leaves before the tape sees
+    # them (leaf identity is lost), so the optimised variant is judged only without them.
+    variants = (("plain", plain),) if has_sub(rec["t"]) else (("plain", plain), ("optimized", optimized))
+    for vname, fn in variants:
         try:
             forward, backward = fn()
         except Exception as e:  # noqa
